@@ -245,6 +245,7 @@ def call(an, st, fid, fn, t, callee, resolved, args, record):
             view = A.Obj("slice", an.top_of_elem(es), n.retype(64, False), esize=es,
                          name=(src.name or "obj") + "/view%d" % es if src else None)
             vid = an.new_obj(st, view)
+            an.views[vid] = (p.obj, off, es)
             return A.SliceV(vid, n.retype(64, False), c.endswith("_mut")), st
         if record:
             an.oblige("mem", fn, _site(an, fn, t, "from_raw_parts"), False, mir.stmt_loc(t),
